@@ -32,7 +32,6 @@ OCAML_SRC = os.path.join(VERIF, "ocaml")
 OCAML_BUILD = os.path.join(BUILD, "ocaml")
 HARNESS = os.path.join(VERIF, "harness")
 TARGET = os.path.join(BUILD, "target")
-MODEL_DRIVER = os.path.join(BUILD, "model_driver")
 GUARD = "resolved_verif"
 
 AXIOM_ALLOW = set()  # names of standard-library axioms tolerated under property theorems (none needed so far)
@@ -195,7 +194,7 @@ def coq_deps(target_v):
         seen.add(p)
         with open(p, encoding="utf-8") as f:
             src = f.read()
-        for m in re.finditer(r"From\s+RV\s+Require\s+(?:Import|Export)\s+([^.]*(?:\.[A-Za-z_][\w]*)*[^.]*)\.\s", src):
+        for m in re.finditer(r"From\s+RV\s+Require\s+(?:Import\s+|Export\s+)?((?:[A-Za-z_][\w]*(?:\.[A-Za-z_][\w]*)*\s*)+)\.(?:\s|$)", src):
             for mod in m.group(1).split():
                 todo.append(os.path.join(COQ, mod.replace(".", "/") + ".v"))
     return sorted(seen)
@@ -220,38 +219,57 @@ def count_obligations(target_vs):
 # model driver (extraction + OCaml)
 # --------------------------------------------------------------------------
 
-def build_model_driver():
+def model_driver_path(name):
+    return os.path.join(BUILD, "model_" + name)
+
+
+def build_model_driver(name, ml_extra=()):
+    """Extract coq/Extract/Extract<Name>.v and link it with ocaml/{vutil,vmain,drv_name,vrr}.ml (as
+    needed), ocaml/drv_<name>.ml and ocaml/main_<name>.ml into build/model_<name>."""
+    cap = name[0].upper() + name[1:]
     with Lock("coq"):
         run_tables()
         ensure_makefile()
-        ext = os.path.join(COQ, "Extract", "Extract.v")
+        ext = os.path.join(COQ, "Extract", "Extract%s.v" % cap)
         deps = [p for p in coq_deps(ext) if p != ext]
         vos = [os.path.relpath(p, COQ) + "o" for p in deps]
+        if not vos:
+            return False, "no dependencies found for " + ext
         rc, out = sh(["make", "-j16"] + vos, cwd=COQ, timeout=3000)
         if rc != 0:
             return False, out
-        srcs = deps + [ext] + [os.path.join(OCAML_SRC, f) for f in sorted(os.listdir(OCAML_SRC)) if f.endswith(".ml")]
+    mls = ["vutil.ml", "vmain.ml", "drv_name.ml"]
+    if name != "name":
+        mls += ["vrr.ml"] + list(ml_extra) + ["drv_%s.ml" % name]
+    mls += ["main_%s.ml" % name]
+    with Lock("ocaml_" + name):
+        srcs = deps + [ext] + [os.path.join(OCAML_SRC, f) for f in mls]
         h = file_hash(srcs)
-        stamp = os.path.join(BUILD, "model_driver.hash")
-        if os.path.exists(MODEL_DRIVER) and os.path.exists(stamp) and open(stamp).read() == h:
+        stamp = os.path.join(BUILD, "model_%s.hash" % name)
+        exe = model_driver_path(name)
+        if os.path.exists(exe) and os.path.exists(stamp) and open(stamp).read() == h:
             return True, "model driver up to date"
-        os.makedirs(OCAML_BUILD, exist_ok=True)
-        for f in os.listdir(OCAML_BUILD):
-            os.remove(os.path.join(OCAML_BUILD, f))
-        rc, out = sh(["coqc", "-Q", COQ, "RV", "-noglob", "-o", os.path.join(BUILD, "Extract.vo"), ext], cwd=OCAML_BUILD, timeout=600)
+        bdir = os.path.join(BUILD, "ocaml_" + name)
+        os.makedirs(bdir, exist_ok=True)
+        for f in os.listdir(bdir):
+            os.remove(os.path.join(bdir, f))
+        rc, out = sh(["coqc", "-Q", COQ, "RV", "-noglob", "-o", os.path.join(bdir, "Extract.vo"), ext], cwd=bdir, timeout=600)
         if rc != 0:
             return False, out
-        for f in os.listdir(OCAML_SRC):
-            if f.endswith(".ml"):
-                with open(os.path.join(OCAML_SRC, f)) as a, open(os.path.join(OCAML_BUILD, f), "w") as b:
-                    b.write(a.read())
-        files = [f for f in os.listdir(OCAML_BUILD) if f.endswith(".ml") or f.endswith(".mli")]
-        rc, order = sh(["ocamlfind", "ocamldep", "-sort"] + files, cwd=OCAML_BUILD)
+        extracted = {f[:-3] for f in os.listdir(bdir) if f.endswith(".ml")}
+        for f in mls:
+            # vrr.ml needs WireTypes; skip it when the subsystem does not extract it
+            if f == "vrr.ml" and "WireTypes" not in extracted:
+                continue
+            with open(os.path.join(OCAML_SRC, f)) as a, open(os.path.join(bdir, f), "w") as b:
+                b.write(a.read())
+        files = [f for f in os.listdir(bdir) if f.endswith(".ml") or f.endswith(".mli")]
+        rc, order = sh(["ocamlfind", "ocamldep", "-sort"] + files, cwd=bdir)
         if rc != 0:
             return False, order
-        rc, out2 = sh(["ocamlfind", "ocamlopt", "-w", "-a", "-O2"] + order.split() + ["-o", MODEL_DRIVER], cwd=OCAML_BUILD, timeout=900)
+        rc, out2 = sh(["ocamlfind", "ocamlopt", "-w", "-a", "-O2"] + order.split() + ["-o", exe], cwd=bdir, timeout=900)
         if rc != 0:
-            rc, out2 = sh(["ocamlfind", "ocamlopt", "-w", "-a"] + order.split() + ["-o", MODEL_DRIVER], cwd=OCAML_BUILD, timeout=900)
+            rc, out2 = sh(["ocamlfind", "ocamlopt", "-w", "-a"] + order.split() + ["-o", exe], cwd=bdir, timeout=900)
         if rc != 0:
             return False, out2
         with open(stamp, "w") as f:
@@ -263,7 +281,7 @@ def build_model_driver():
 # impl driver (Rust harness against /repo's working tree, hooks on)
 # --------------------------------------------------------------------------
 
-def build_impl_driver():
+def build_impl_driver(name):
     with Lock("cargo"):
         lock_src = os.path.join(REPO, "Cargo.lock")
         lock_dst = os.path.join(HARNESS, "Cargo.lock")
@@ -282,12 +300,12 @@ def build_impl_driver():
         except OSError:
             pass
         env = {"RUSTFLAGS": "--cfg " + GUARD, "CARGO_TARGET_DIR": TARGET}
-        rc, out = sh(["cargo", "build", "--offline", "--bin", "impl_driver"], cwd=HARNESS, env=env, timeout=3000)
+        rc, out = sh(["cargo", "build", "--offline", "--bin", "impl_" + name], cwd=HARNESS, env=env, timeout=3000)
         return rc == 0, out
 
 
-def impl_driver_path():
-    return os.path.join(TARGET, "debug", "impl_driver")
+def impl_driver_path(name):
+    return os.path.join(TARGET, "debug", "impl_" + name)
 
 
 # --------------------------------------------------------------------------
@@ -406,16 +424,17 @@ def main_check(mod, argv):
         broken.append(("forbidden", "forbidden vernacular: %s" % bad[:5], ""))
 
     # 2/3. drivers
+    drv = getattr(mod, "DRIVER", None)
     need_model = getattr(mod, "NEED_MODEL", True)
     need_impl = getattr(mod, "NEED_IMPL", True)
     drivers_ok = True
     if need_model:
-        ok2, out2 = build_model_driver()
+        ok2, out2 = build_model_driver(drv, getattr(mod, "ML_EXTRA", ()))
         if not ok2:
             drivers_ok = False
             broken.append(("model-build", "model driver build failed", trunc(out2[-1500:], 1500)))
     if need_impl:
-        ok3, out3 = build_impl_driver()
+        ok3, out3 = build_impl_driver(drv)
         if not ok3:
             drivers_ok = False
             broken.append(("impl-build", "harness build against /repo failed (hooks on)", trunc(out3[-2500:], 2500)))
@@ -435,8 +454,8 @@ def main_check(mod, argv):
         else:
             cases = mod.generate(rng, tier)
         env = getattr(mod, "ENV", None)
-        mouts = run_sharded(MODEL_DRIVER, cases, run_dir, "model", env=env)
-        iouts = run_sharded(impl_driver_path(), cases, run_dir, "impl", env=env)
+        mouts = run_sharded(model_driver_path(drv), cases, run_dir, "model", env=env)
+        iouts = run_sharded(impl_driver_path(drv), cases, run_dir, "impl", env=env)
         canon = getattr(mod, "canonical", lambda c, o: o)
         seen = set()
         for c, mo, io in zip(cases, mouts, iouts):
